@@ -203,6 +203,27 @@ func main() {
 				}
 			}
 		}
+		// inet from strings: dotted IPv4, full / compressed IPv6, IPv4-mapped IPv6 in both spellings, non-addresses
+		for _, str := range []string{"127.0.0.1", "0.0.0.0", "255.255.255.255", "::ffff:127.0.0.1", "::FFFF:c0a8:0101", "0:0:0:0:0:ffff:10.1.2.3", "::ffff:0:0", "::1", "::", "2001:db8::8a2e:370:7334", "2001:0DB8:0000:0000:0000:8A2E:0370:7334", "fe80::1", "64:ff9b::192.0.2.33", "::1.2.3.4", "1:2:3:4:5:6:7:8", "01.2.3.4", "1.2.3", "fe80::1%eth0", "1:2:3:4:5:6:7:8:9", "not an ip"} {
+			rn.MarshalCase("marshal-inet-string", pvOf(), mv.Native(gocql.TypeInet), mv.VStr(false, str), true)
+		}
+		for i := 0; i < 25; i++ {
+			rn.MarshalCase("marshal-inet-string", pvOf(), mv.Native(gocql.TypeInet), mv.VStr(false, mv.InetString(r)), true)
+		}
+		for _, bc := range mv.BytesCases(r) {
+			pv := 3 + r.Intn(3)
+			c, null, ok := mv.Denote(bc.T, bc.V)
+			if !ok || null {
+				continue
+			}
+			data, eok := mv.SpecEncode(pv, bc.T, c)
+			if !eok {
+				continue
+			}
+			for _, g := range bc.Gs {
+				rn.DecodeCase("unmarshal-bytes-targets", pv, bc.T, data, g, c, false, true, "specification-conformant encoding")
+			}
+		}
 		for i := 0; i < 12; i++ {
 			v := mv.PreEpochTime(r)
 			rn.MarshalCase("marshal-pre-epoch", pvOf(), mv.Native(gocql.TypeTimestamp), v, true)
@@ -280,6 +301,7 @@ func main() {
 	for k, n := range rn.Stat {
 		o.Extra[k] = n
 	}
+	rn.Recheck()
 	o.Extra["coverage_matrix"] = rn.Matrix
 	o.Finish("From GocqlV Require Import Lib.Base C12.Model C12.Spec C12.Corr.", "C12.Corr.case", "C12.Corr.run")
 }
